@@ -114,6 +114,27 @@ CHECKS.update({
          'after the coroutine ended, completion within stop_timeout, nothing left.',
          TRUSTED + '; run durations and guard times are multiples of 0.25 s; InExecutor (threads) is not exercised; stop_timeout is chosen large enough for the pending work', '6 C12'),
 })
+CHECKS.update({
+ 'C08': (MC, 'TLC model checking of Lifecycle.tla via MC_Lifecycle (run_forever at await-point granularity: start loop, yield, async init, sync init, simulate, caught, consume, async and sync clean-up; abort / cancellation at every step; all compositions of 2 (thorough: 3) blocks x one fault site) + sharpness self-test (init tasks not cancelled) + random compositions x fault sites x termination causes run on the real simulator, batch trace validation against the monitor LifecycleTrace.tla',
+         'Lifecycle.tla models run_forever with its await points, abort(), the suppressed and the fatal fault sites, the init / main / stop tasks and the two-phase clean-up; TLC checks StoppedExactlyOnce, AsyncFirst, NothingLeft '
+         '(must fail when only the awaited init task is cancelled), FirstWins, NeverReadyAgain. Compositions of plain / Timer / Repeat (also stop_timeout=0) / OutputAsync / ValuePoll / InitAsync / slow asynchronous clean-up / '
+         'FuncBlock / control-event triggers (Event.shutdown(), Event.abort() and the long form, from outside, from inside the simulation task, already at initialisation) with one fault site and every termination cause '
+         '(shutdown(), supporting task returning / failing, SIGTERM, control events, abort(), abort before start) at chosen instants and loop steps run under the virtual-time loop; the monitor validates start / stop / '
+         'stop_async records, the reported error, asyncio.all_tasks() and the loop heap afterwards, restart and modification attempts.',
+         TRUSTED + '; counting probes wrap start/stop/stop_async/init_regular of the real blocks (faults are raised after the block\'s own housekeeping in stop paths, before it in start); stop_data order is checked under C12', '6 C08'),
+ 'C09': (MC, 'TLC model checking of Lifecycle.tla (FirstWins, NeverReadyAgain) + orderings of 1..3 error sources run on the real simulator, batch trace validation against LifecycleTrace.tla',
+         'The monitor keeps the first error delivered to the simulator (abort() calls seen at Circuit.abort, injected fatal faults logged where they are raised: event handler - also behind a block that swallows the exception and '
+         'from inside the simulation task -, calc_output, synchronous initialisation, main task) and demands that run_forever(), Circuit.error, a later shutdown() and run() report exactly it (cancellation = normal stop; '
+         'otherwise the first failing supporting task), that non-fatal kinds (unknown event type, missing parameter, failing init_async / stop / stop_async) change nothing and the circuit stays ready, that later abort() calls never '
+         'replace the error and that the circuit is never ready again.',
+         TRUSTED + '; a synchronous initialisation routine failing inside an early initialisation triggered by an external event is only required to make the start-up fail (with any error)', '6 C09'),
+ 'C14': (MC, 'TLC model checking of Lifecycle.tla (ReadyOnlyWhileRunning) + ExtEvent.send() attempts in every phase with all data shapes on the real simulator, batch trace validation against LifecycleTrace.tla (source rule on character codes)',
+         'ExtEvent.send() is attempted before the task exists, before it has run, during (slow) asynchronous initialisation, while running, in the very loop step of the stop request, during a slow asynchronous clean-up and after the stop, '
+         'for abort(), SIGTERM and control events; the monitor computes readiness from the begin / abort / fault records and demands delivery with the handler\'s data iff ready, EdzedInvalidState and no delivery otherwise; the delivered '
+         '\'source\' must equal the TLA+ ExpectedSource of the caller\'s item (none, prefixed, unprefixed, empty, underscore names, names of automatic blocks), value and other items unchanged; block names beginning with an underscore are '
+         'refused and no block name starts with the external prefix.',
+         TRUSTED + '; automatic names of user classes whose class name itself starts with ext_ are not asserted either way (DESIGN section 7-10)', '6 C14'),
+})
 NA = {}
 ALL = [f'C{n:02d}' for n in range(1, 21)]
 
